@@ -669,6 +669,13 @@ def _enum_basic():
     yield dict(base, reconnect=False, ops=[["connect"], ["success"], ["stream_error", "xml-not-well-formed", False], ["loop"], ["connect"], ["success"]])
     yield dict(base, ops=[["connect"], ["failure", "401"], ["loop"], ["connect"], ["success"], ["peer_close"], ["send"], ["loop"], ["connect"]])
     yield dict(base, outcomes=["refused", "ok"], ops=[["connect"], ["loop"], ["connect"], ["success"], ["disconnect"], ["loop"]])
+    # the automatic reconnection after a stream error is itself refused / given up by the application while it is being established:
+    # exactly one attempt was due, none follows by itself
+    yield dict(base, outcomes=["ok", "refused", "ok"], ops=[["connect"], ["success"], ["stream_error", "ack", False], ["loop"], ["loop"], ["tick"], ["loop"]])
+    yield dict(base, outcomes=["ok", "refused", "refused", "ok"], ops=[["connect"], ["success"], ["stream_error", "xml-not-well-formed", False], ["loop"],
+                                                                        ["loop"], ["connect"], ["loop"], ["connect"], ["success"]])
+    yield dict(base, late=[False, True, False], ops=[["connect"], ["success"], ["stream_error", "ack", False], ["loop"], ["disconnect"], ["loop"], ["loop"],
+                                                     ["connect"], ["success"]])
     yield dict(base, ops=[["connect"], ["connect"], ["success"], ["tick"], ["peer_close"], ["tick"], ["loop"], ["connect"], ["success"], ["tick"]])
     yield dict(base, redundant_down=True, ops=[["connect"], ["success"], ["close_and_send"], ["connect"], ["success"], ["disconnect"], ["connect"], ["peer_close"]])
     yield dict(base, late=[True, True, True, False], ops=[["connect"], ["peer_close"], ["connect"], ["disconnect"], ["connect"], ["server_reply"], ["success"],
